@@ -43,9 +43,14 @@ def handlers : List (List String → Option String) := [
   Driver.Json.handle
 ]
 
+/-- a reply is one line: control characters and line separators inside a failure message are shown escaped -/
+def oneLine (s : String) : String :=
+  String.join (s.toList.map fun c =>
+    if c.toNat < 32 || c.toNat == 127 || c.toNat == 133 || c.toNat == 8232 || c.toNat == 8233 then s!"\\u{c.toNat}" else c.toString)
+
 def dispatch (toks : List String) : String :=
   match handlers.findSome? (fun h => h toks) with
-  | some r => r
+  | some r => oneLine r
   | none => s!"bad-op {" ".intercalate (toks.take 1)}"
 
 partial def loop (h : IO.FS.Stream) (out : IO.FS.Stream) : IO Unit := do
